@@ -215,8 +215,8 @@ func init() {
 		},
 		Ref:      func(c []float64, in []ref.S) []ref.S { return []ref.S{momRsi(in[0], I(c, 0))} },
 		PriceDeg: []int{0}, VolDeg: []int{0},
-		Range:    momBetween(0, 100, "rsi"),
-		Note:     "averages are Wilder's RMA (the struct's Rma field) of gains and of losses of the one-step change; average loss 0 with positive average gain gives the standard limit 100; both 0 is exempt",
+		Range: momBetween(0, 100, "rsi"),
+		Note:  "averages are Wilder's RMA (the struct's Rma field) of gains and of losses of the one-step change; average loss 0 with positive average gain gives the standard limit 100; both 0 is exempt",
 	})
 	RegInd(&Ind{
 		Name: "momentum.StochasticOscillator", In: []string{"H", "L", "C"}, Out: []string{"k", "d"},
@@ -236,8 +236,8 @@ func init() {
 			return []ref.S{k, ref.Sma(k, I(c, 1))}
 		},
 		PriceDeg: []int{0, 0}, VolDeg: []int{0, 0},
-		Range:    momBetween(0, 100, "k", "d"),
-		Note:     "cfg = [max/min period, D period]",
+		Range: momBetween(0, 100, "k", "d"),
+		Note:  "cfg = [max/min period, D period]",
 	})
 	RegInd(&Ind{
 		Name: "momentum.StochasticRsi", In: []string{"X"}, Out: []string{"stochrsi"},
@@ -259,8 +259,8 @@ func init() {
 			return []ref.S{ref.DivScaled(ref.Sub(r, lo), ref.Sub(hi, lo), 100)}
 		},
 		PriceDeg: []int{0}, VolDeg: []int{0},
-		Range:    momBetween(0, 1, "stochrsi"),
-		Note:     "window starts at 2: with a window of 1 max = min = RSI and the formula is 0/0 everywhere",
+		Range: momBetween(0, 1, "stochrsi"),
+		Note:  "window starts at 2: with a window of 1 max = min = RSI and the formula is 0/0 everywhere",
 	})
 	RegInd(&Ind{
 		Name: "momentum.WilliamsR", In: []string{"H", "L", "C"}, Out: []string{"wr"},
@@ -276,6 +276,6 @@ func init() {
 			return []ref.S{ref.Scl(ref.Div(ref.Sub(hi, in[2]), ref.Sub(hi, lo)), -100)}
 		},
 		PriceDeg: []int{0}, VolDeg: []int{0},
-		Range:    momBetween(-100, 0, "wr"),
+		Range: momBetween(-100, 0, "wr"),
 	})
 }
